@@ -365,6 +365,12 @@ def run(ctx):
         ("bind:jr:constraintMsg:fr", False, ("bind", ("bind", "jr:constraintMsg", "fr"))),
         ("bind::jr:constraintMsg", True, ("bind", ("bind", "jr:constraintMsg"))),
         ("bind :: jr:constraintMsg :: fr", True, ("bind", ("bind", "jr:constraintMsg", "fr"))),
+        # what follows the group word is the attribute's own name, written out as it is: camelCase names keep their capitals,
+        # with or without a language after them
+        ("body::accuracyThreshold", True, ("control", ("control", "accuracyThreshold"))), ("body::unacceptableAccuracyThreshold", True, ("control", ("control", "unacceptableAccuracyThreshold"))),
+        ("bind::saveIncomplete", True, ("bind", ("bind", "saveIncomplete"))), ("body::bodyAttribute", True, ("control", ("control", "bodyAttribute"))),
+        ("bind::jr:constraintMsg::French", True, ("bind", ("bind", "jr:constraintMsg", "French"))), ("bind::jr:requiredMsg::French (fr)", True, ("bind", ("bind", "jr:requiredMsg", "French (fr)"))),
+        ("bind:jr:requiredMsg:French", False, ("bind", ("bind", "jr:requiredMsg", "French"))), ("instance::odk:customAttr", True, ("instance", ("instance", "odk:customAttr"))),
     ]
     for header, dbl, want in cases:
         it.reset([])
